@@ -563,3 +563,130 @@ func containerSources(v ssa.Value, depth int) []ssa.Value {
 	}
 	return nil
 }
+
+// NILMAP: no assignment into a map that may be nil. A function that updates one
+// of its map parameters directly is a "parameter writer"; at each of its call
+// sites the argument must not be a value that can be the nil map: the nil
+// constant, or the result of a module function / closure that has a
+// `return nil` path, unless a dominating test excludes nil.
+func (c *Ctx) NILMAP(rule string, entry ...string) []report.Obligation {
+	var out []report.Obligation
+	r, missing := c.Reach(entry...)
+	for _, m := range missing {
+		out = append(out, anchorViolation(rule, m))
+	}
+	writers := map[*ssa.Function]map[int]bool{}
+	for _, f := range r.Sorted(c.P) {
+		for _, b := range f.Blocks {
+			for _, in := range b.Instrs {
+				if mu, ok := in.(*ssa.MapUpdate); ok {
+					if pa, ok := mu.Map.(*ssa.Parameter); ok {
+						for i, p := range f.Params {
+							if p == pa {
+								if writers[f] == nil {
+									writers[f] = map[int]bool{}
+								}
+								writers[f][i] = true
+							}
+						}
+					}
+				}
+			}
+		}
+	}
+	n := 0
+	for _, f := range r.Sorted(c.P) {
+		if strings.HasPrefix(c.P.FuncID(f), "types.deriveDeepCopy") {
+			continue // generated copies allocate their destination maps themselves (make before every call)
+		}
+		for _, b := range f.Blocks {
+			for _, in := range b.Instrs {
+				call, ok := in.(*ssa.Call)
+				if !ok {
+					continue
+				}
+				cal := call.Call.StaticCallee()
+				if cal == nil || writers[cal] == nil {
+					continue
+				}
+				for i := range writers[cal] {
+					if i >= len(call.Call.Args) {
+						continue
+					}
+					a := call.Call.Args[i]
+					n++
+					key := c.P.FuncID(f) + " :: " + c.P.FuncID(cal) + " writes into argument " + c.P.KeyTerm(a, 2)
+					why, mayNil := c.mayBeNilMap(a, 4)
+					if mayNil && !nonNilFact(b, a) {
+						out = append(out, bad(rule, key, c.P.InstrPos(in), c.P.FuncID(cal)+" assigns into this map, which can be nil here ("+why+"): `assignment to entry in nil map`"))
+					} else {
+						out = append(out, ok2(rule, key, c.P.InstrPos(in), "the argument is a non-nil map on every path (literal, make, checked conversion, or nil excluded by a dominating test)"))
+					}
+				}
+			}
+		}
+	}
+	c.Stats[rule+".call_sites"] = n
+	if n == 0 {
+		out = append(out, bad(rule, "inventory", "", "no call of a function that writes into a map parameter found: the rule sees nothing"))
+	}
+	return out
+}
+
+func nonNilFact(b *ssa.BasicBlock, v ssa.Value) bool {
+	return factHolds(b, func(cond ssa.Value, val bool) bool {
+		bo, ok := cond.(*ssa.BinOp)
+		if !ok || (bo.Op != token.EQL && bo.Op != token.NEQ) {
+			return false
+		}
+		if (bo.X == v && prog.IsNilConst(bo.Y)) || (bo.Y == v && prog.IsNilConst(bo.X)) {
+			return (bo.Op == token.NEQ) == val
+		}
+		return false
+	})
+}
+
+// mayBeNilMap: the map value can be nil, with the reason.
+func (c *Ctx) mayBeNilMap(v ssa.Value, depth int) (string, bool) {
+	if v == nil || depth == 0 {
+		return "", false
+	}
+	switch x := v.(type) {
+	case *ssa.Const:
+		if x.Value == nil {
+			return "nil constant", true
+		}
+	case *ssa.Phi:
+		for _, e := range x.Edges {
+			if w, ok := c.mayBeNilMap(e, depth-1); ok {
+				return w, true
+			}
+		}
+	case *ssa.ChangeType:
+		return c.mayBeNilMap(x.X, depth-1)
+	case *ssa.Call:
+		var callee *ssa.Function
+		if cal := x.Call.StaticCallee(); cal != nil && c.P.InModule(cal) {
+			callee = cal
+		} else if mc, ok := x.Call.Value.(*ssa.MakeClosure); ok {
+			callee = mc.Fn.(*ssa.Function)
+		} else if u, ok := x.Call.Value.(*ssa.UnOp); ok {
+			if cv := c.cellValue(u.X); cv != nil {
+				if mc, ok := cv.(*ssa.MakeClosure); ok {
+					callee = mc.Fn.(*ssa.Function)
+				}
+			}
+		}
+		if callee == nil || callee.Blocks == nil {
+			return "", false
+		}
+		for _, r := range returnsOf(callee) {
+			if len(r.Results) > 0 {
+				if cst, ok := retValue(r, 0).(*ssa.Const); ok && cst.Value == nil {
+					return c.P.FuncID(callee) + " has a `return nil` path (" + c.P.InstrPos(r) + ")", true
+				}
+			}
+		}
+	}
+	return "", false
+}
